@@ -142,7 +142,16 @@ func run(c *engine.Ctx) {
 			for _, n := range rel {
 				indents = append(indents, strings.Repeat(" ", n))
 			}
-			indents = append(indents, "\t", "\t ", " \t", "\t\t", strings.Repeat(" ", q)+"\t")
+			indents = append(indents, "\t", "\t ", " \t", "\t\t")
+			// a tab right behind indentation of every width around the quote column (behind exactly
+			// q+1 columns it is the first character of the text), the indentation made of blanks
+			// or of a tab and blanks
+			for _, n := range rel {
+				indents = append(indents, strings.Repeat(" ", n)+"\t")
+				if n >= 8 {
+					indents = append(indents, "\t"+strings.Repeat(" ", n-8), "\t"+strings.Repeat(" ", n-8)+"\t")
+				}
+			}
 			for _, nl := range []string{"\n", "\r\n"} {
 				for _, w1 := range words {
 					for _, w2 := range []string{"b", "c d", "\\\"z", "é", ""} {
